@@ -311,3 +311,58 @@ func VH_C02_inbatch(asSequence, maxN, maxK int) {
 	vhWholeTable(f, ref, "after the batch")
 	verif.Cover("end")
 }
+
+// vhROAnswer: what a read-only transaction "if value(k) == v then get k else
+// get k" must answer on state r: (succeeded, value or absent).
+func vhROAnswerIs(ro *regattapb.TxnResponse, r *vhRef, k, v []byte) bool {
+	cur, has := r.get(k)
+	want := has && bytes.Equal(cur, v)
+	if ro.Succeeded != want || len(ro.Responses) != 1 {
+		return false
+	}
+	rr := ro.Responses[0].GetResponseRange()
+	if rr == nil {
+		return false
+	}
+	if !has {
+		return rr.Count == 0 && len(rr.Kvs) == 0
+	}
+	return rr.Count == 1 && len(rr.Kvs) == 1 && bytes.Equal(rr.Kvs[0].Key, k) && bytes.Equal(rr.Kvs[0].Value, cur)
+}
+
+// VH_C02_readonly_concurrent: a read-only transaction evaluated while a write
+// to the key it looks at is applied, under every interleaving of their
+// database operations: predicate and reads come from ONE state - the answer
+// is the answer on the state before the write or on the state after it.
+// Engine only.
+func VH_C02_readonly_concurrent() {
+	db := vhOpenDB()
+	ref := vhArbitraryStateSys(db, 1, 1, -1, true)
+	verif.Assume(ref.index < 1<<62)
+	f := vhFSM(db, nil)
+	k, v, nv := verif.Bytes(1), verif.Bytes(1), verif.Bytes(1)
+	after := ref.clone()
+	after.put(k, nv)
+	rng := &regattapb.RequestOp{Request: &regattapb.RequestOp_RequestRange{RequestRange: &regattapb.RequestOp_Range{Key: k}}}
+	req := &regattapb.TxnRequest{Table: []byte("t"),
+		Compare: []*regattapb.Compare{{Key: k, Result: regattapb.Compare_EQUAL, Target: regattapb.Compare_VALUE, TargetUnion: &regattapb.Compare_Value{Value: v}}},
+		Success: []*regattapb.RequestOp{rng}, Failure: []*regattapb.RequestOp{rng}}
+	verif.Assert(req.IsReadonly(), "harness: read-only transaction")
+	done := make(chan struct{})
+	verif.YieldAtDB(true)
+	go func() {
+		_, err := f.Update([]sm.Entry{vhEntry(ref.index+1, &regattapb.Command{Table: []byte("t"), Type: regattapb.Command_PUT, Kv: &regattapb.KeyValue{Key: k, Value: nv}})})
+		verif.Assert(err == nil, "concurrent apply succeeds")
+		close(done)
+	}()
+	out, err := f.Lookup(req)
+	<-done
+	verif.YieldAtDB(false)
+	verif.Assert(err == nil, "read-only transaction answered")
+	if err != nil {
+		return
+	}
+	ro := out.(*regattapb.TxnResponse)
+	verif.Assert(vhROAnswerIs(ro, ref, k, v) || vhROAnswerIs(ro, after, k, v), "a read-only transaction racing with a write answers from one state: the one before or the one after")
+	verif.Cover("end")
+}
